@@ -25,6 +25,7 @@ class Slicer:
         self.cache = {}
         self.max_steps = max_steps
         self.unresolved = []
+        self.stop = None
 
     def graph(self, fn):
         k = id(fn)
@@ -53,6 +54,8 @@ class Slicer:
             return
         seen.add(key)
         visit(expr, fn)
+        if self.stop is not None and self.stop(expr):
+            return  # an opaque producer: its operands do not flow into the value as such
         g, IN, by_id = self.graph(fn)
         # element selection on a literal
         if _sel is not None and isinstance(expr, (ast.List, ast.Tuple)):
